@@ -27,7 +27,7 @@ from engine.vloop import VLoop
 from engine.c02env import le_value, v_eq, v_ugt, terms, cut
 from engine.c10env import (Observer, TicketMap, ticket_source, kind_of, le, frame, peer_init, pierce_firewall,
                            peer_place_in_queue_reply, distributed_branch_level, server_get_user_status,
-                           server_connect_to_peer, server_cannot_connect, obfuscate)
+                           server_connect_to_peer, server_get_peer_address, server_cannot_connect, obfuscate)
 
 import aioslsk.protocol.messages as M
 import aioslsk.protocol.obfuscation as O
@@ -599,18 +599,19 @@ def h_incoming(c, port, first, tail='none', inject='none', n_any=0, slow='none')
 # H2: connections we open (direct, on the server's request, fallback / race with the indirect attempt)
 # ------------------------------------------------------------------------------------------------------------------
 
-VIAS = ('direct_plain', 'direct_obf', 'request')
+VIAS = ('direct_plain', 'direct_obf', 'request', 'lookup')
+WIRE_VIAS = ('request', 'lookup')       # address (ip, port, obfuscated port) comes from the wire: symbolic through the real codec
 CONNECTS = ('ok', 'ok_slow', 'refused', 'refused_slow', 'hang')
 OUT_INJECTS = INJECTS + ('cancel', 'pierce')
 
 
-def h_outgoing(c, via, mode='fallback', typ='P', connect='ok', initsend='ok', tail='none', inject='none', slow='none'):
+def h_outgoing(c, via, mode='fallback', typ='P', connect='ok', initsend='ok', tail='none', inject='none', slow='none', port='fixed'):
     sig = ['outgoing', via, mode, connect, initsend, tail]
     loop = VLoop()
     g = codec.Gen(c)
     try:
         with c10env.streams(c.symbolic) as st, codec.installed(c.symbolic, key_source=key_source_for(g)):
-            W = World(c, loop, st, g, mode=mode, prefer_obf=c.choose(2, 'prefer_obfuscated') == 1 if via == 'request' else False)
+            W = World(c, loop, st, g, mode=mode, prefer_obf=c.choose(2, 'prefer_obfuscated') == 1 if via in WIRE_VIAS else False)
             W.start()
             net, obs = W.net, W.obs
             obs.slow_states = slow == 'states'
@@ -632,9 +633,18 @@ def h_outgoing(c, via, mode='fallback', typ='P', connect='ok', initsend='ok', ta
                 return ws[-1] if ws else None
             task = None
             if via in ('direct_plain', 'direct_obf'):
-                task = loop.spawn(net.create_peer_connection('bob', typ, ip='1.2.3.4', port=1234, obfuscate=via == 'direct_obf'),
+                # port='sym': the caller-supplied port is any 32-bit value (what a manager passes on from a peer message)
+                port_v = g.word('direct.port', 32) if port == 'sym' else 1234
+                task = loop.spawn(net.create_peer_connection('bob', typ, ip='1.2.3.4', port=port_v, obfuscate=via == 'direct_obf'),
                                   name='create-peer-connection')
                 obf_after = via == 'direct_obf' and typ == 'P'
+            elif via == 'lookup':
+                # no address given: GetPeerAddress round trip; ip / port (uint32) / obfuscated port (uint16) of the answer are symbolic
+                task = loop.spawn(net.create_peer_connection('bob', typ), name='create-peer-connection')
+                data = server_get_peer_address('bob', terms(g.raw('gpa.ip', 4)), g.word('gpa.port', 32), g.word('gpa.obf_amount', 32),
+                                               g.word('gpa.obf_port', 16))
+                R.script.append(lambda: W.server_wire.feed(data))
+                obf_after = None
             else:
                 data = server_connect_to_peer(g.text('ctp.username', 2), typ, terms(g.raw('ctp.ip', 4)), g.word('ctp.port', 32),
                                               g.word('ctp.ticket', 32), terms(g.raw('ctp.privileged', 1))[0], g.word('ctp.obf_amount', 32),
@@ -660,7 +670,7 @@ def h_outgoing(c, via, mode='fallback', typ='P', connect='ok', initsend='ok', ta
             if tail != 'none':
                 if initsend != 'ok':
                     raise symex.HarnessError('tails need an established connection')
-                if via == 'request' and tail in ('frames_eof', 'frames_batch', 'handler_disconnects', 'eof_mid_frame'):
+                if via in WIRE_VIAS and tail in ('frames_eof', 'frames_batch', 'handler_disconnects', 'eof_mid_frame'):
                     # whether the peer has to obfuscate its frames is decided by select_port on symbolic ports
                     raise symex.HarnessError('frame tails are driven through direct connections')
                 add_tail(R, c, g, W, out_wire, typ, obf_after, tail)
@@ -802,8 +812,12 @@ META = {
                    'twice / stalled / failing transport close, handler that disconnects between two buffered frames, Network.disconnect, '
                    'sends after CLOSED) x one injected concurrent action at every loop step (disconnect, two disconnects, Network.disconnect, '
                    'send, remote EOF, reset).  outgoing: create_peer_connection (direct plain / obfuscated, typ P/D/F, fallback and race '
-                   'mode) and the server-requested _handle_connect_to_peer (ConnectToPeer.Response with symbolic user, ip, ports, ticket; '
-                   'select_port decided by z3) x connect ok / slow / refused / never answers x init-message write ok / fails / stalls x tail '
+                   'mode; with the address given - optionally a symbolic 32-bit port - or looked up: GetPeerAddress.Response with symbolic ip, '
+                   'uint32 port, uint16 obfuscated port) and the server-requested _handle_connect_to_peer (ConnectToPeer.Response with symbolic '
+                   'user, ip, ports, ticket; select_port decided by z3).  The port that reaches open_connection is the value that flowed '
+                   'from the wire through the real codec; the fake treats it like the real call (port > 65535 -> OverflowError, not an '
+                   'OSError, no I/O) - z3 finds such a port and the path "attempt ends with a non-OSError" runs through every clause - '
+                   'x connect ok / slow / refused / never answers x init-message write ok / fails / stalls x tail '
                    'x injection (additionally: cancellation of the connecting task at every loop step, a PeerPierceFirewall for the racing '
                    'indirect attempt at every loop step).  server: connect, end, reconnect by the REAL watchdog job, second life, shutdown.  '
                    'At every loop callback the observer checks: reports strictly forward, nothing after CLOSED except server '
@@ -826,7 +840,7 @@ META = {
                   Network.remove_peer_connection, Network._remove_connection_future, Network.on_message_received,
                   Network._server_connection_watchdog_job, Network._cancel_all_tasks, EventBus.emit,
                   M.PeerInit.Request, M.PeerPierceFirewall.Request, M.ConnectToPeer.Response, M.ConnectToPeer.Request,
-                  M.CannotConnect.Request, O.encode, O.decode],
+                  M.CannotConnect.Request, M.GetPeerAddress.Response, Network._get_peer_address, O.encode, O.decode],
     'stubs': codec.STUBS + c10env.STUBS + [
         'Network built with its real constructor, real Settings (upnp off; reconnect on with 2 s delay in the server harness), real EventBus',
         'settings.debug.ip_overrides (empty dict) -> object whose get() returns the default without hashing (exploration only)',
@@ -836,10 +850,13 @@ META = {
                        'obfuscated port', 'PeerInit user name bytes, typ byte, 32/64-bit ticket', 'PeerPierceFirewall ticket (32 bit) and the '
                        'tickets handed out by the ticket generator (32 bit, pairwise distinct)', 'length prefix of a frame cut by EOF (32 bit)',
                        'leaves of every frame received / message sent in the scenarios (user names, file names, uint32), obfuscation keys',
-                       'ConnectToPeer.Response: user name, ip octets, port, obfuscated port, ticket, privileged byte'],
+                       'ConnectToPeer.Response: user name, ip octets, port, obfuscated port, ticket, privileged byte',
+                       'GetPeerAddress.Response: ip octets, port (uint32), obfuscated port amount, obfuscated port (uint16)',
+                       'the port handed to open_connection (32-bit word from the wire or from the caller): decides between "attempt is '
+                       'made" and "OverflowError before any I/O" (port > 65535)'],
     'discriminants': ['listening port (plain / obfuscated)', 'first-frame kind (15) and body length', 'TCP segmentation of the first frame (2)',
                       'end kind of an established connection (15)', 'kind of the injected concurrent action (7 + cancel + pierce) and the loop step '
-                      'at which it happens (every step of the scenario)', 'way of opening (direct plain / obfuscated / server request), '
+                      'at which it happens (every step of the scenario)', 'way of opening (direct plain / obfuscated with fixed or symbolic port / address lookup / server request), '
                       'connect mode (fallback / race), typ (P/D/F)', 'outcome of open_connection (ok, ok after 1 s, refused, refused after 1 s, never)',
                       'outcome of the init-message write (ok, fails, stalls)', 'server: connect outcome, end kind (7), outcome of the reconnect'],
     'bounds': {t: {'fully symbolic first frame body': f"0..{b['any']} bytes (plain port), 0..{b['any_obf']} (obfuscated port)",
@@ -943,8 +960,10 @@ def jobs(tier):
                     inc(port, first, 'none', 'disconnect', 'states')
 
     # ---- H2: outgoing --------------------------------------------------------------------------------------------------
-    def outg(via, mode, typ, connect, initsend, t, inj, slow='none'):
-        if via == 'request' and (mode == 'race' or inj in ('cancel', 'pierce') or _frame_tail(t) or t == 'eof_mid_frame'):
+    def outg(via, mode, typ, connect, initsend, t, inj, slow='none', port='fixed'):
+        if via == 'request' and (mode == 'race' or inj in ('cancel', 'pierce')):
+            return
+        if via in WIRE_VIAS and (_frame_tail(t) or t == 'eof_mid_frame'):
             return
         if typ == 'F' and _frame_tail(t):
             return
@@ -953,7 +972,12 @@ def jobs(tier):
         params = {'via': via, 'mode': mode, 'typ': typ, 'connect': connect, 'initsend': initsend, 'tail': t, 'inject': inj}
         if slow != 'none':
             params['slow'] = slow
-        add('outgoing', h_outgoing, params, core + ['outgoing_connection_created'], 300 if inj == 'double' else 60 if inj != 'none' else 2)
+        if port != 'fixed':
+            params['port'] = port
+        req = core + ['outgoing_connection_created']
+        if via in WIRE_VIAS or port == 'sym':
+            req = req + ['connect_argument_rejected']      # the solver found an address the real open_connection refuses to take
+        add('outgoing', h_outgoing, params, req, 300 if inj == 'double' else 60 if inj != 'none' else 2)
     if quick:
         for connect in CONNECTS:
             for inj in ('none', 'cancel', 'disconnect', 'net_disconnect'):
@@ -964,6 +988,15 @@ def jobs(tier):
             outg('request', 'fallback', 'F', connect, 'ok', 'none', 'disconnect')
             outg('direct_plain', 'fallback', 'P', connect, 'ok', 'none', 'disconnect', 'states')
             outg('direct_plain', 'fallback', 'F', connect, 'ok', 'none', 'cancel', 'states')
+        for connect in ('ok', 'refused', 'hang'):
+            outg('lookup', 'fallback', 'P', connect, 'ok', 'none', 'none')
+            outg('lookup', 'race', 'D', connect, 'ok', 'none', 'pierce')
+            outg('lookup', 'fallback', 'F', connect, 'ok', 'none', 'cancel')
+            outg('direct_plain', 'fallback', 'P', connect, 'ok', 'none', 'none', port='sym')
+            outg('direct_obf', 'race', 'D', connect, 'ok', 'none', 'disconnect', port='sym')
+        outg('request', 'fallback', 'P', 'ok', 'ok', 'none', 'none')
+        outg('request', 'fallback', 'P', 'ok', 'ok', 'none', 'disconnect', 'states')
+        outg('lookup', 'fallback', 'P', 'ok', 'ok', 'none', 'net_disconnect', 'states')
         for initsend in ('reset', 'hang'):
             for inj in ('none', 'disconnect', 'cancel'):
                 outg('direct_obf', 'fallback', 'P', 'ok', initsend, 'none', inj)
@@ -990,6 +1023,9 @@ def jobs(tier):
                             for inj in ('disconnect', 'cancel', 'net_disconnect', 'pierce'):
                                 if typ == 'P':
                                     outg(via, mode, typ, connect, initsend, 'none', inj, 'states')
+                            if via.startswith('direct') and initsend == 'ok':
+                                for inj in ('none', 'disconnect', 'cancel', 'pierce'):
+                                    outg(via, mode, typ, connect, initsend, 'none', inj, port='sym')
             for typ in ('P', 'D', 'F'):
                 for t in TAILS[1:]:
                     for inj in ('none', 'disconnect', 'net_disconnect', 'send', 'cancel', 'remote_reset'):
@@ -1032,6 +1068,7 @@ def jobs(tier):
 def prelude(tier):
     notes = codec.validate(deep=False)
     notes.append(_validate_wire())
+    notes.append(_validate_arguments())
     notes.append(_validate_reference())
     return notes
 
@@ -1045,6 +1082,8 @@ def _validate_reference():
         (bytes(distributed_branch_level(5)), M.DistributedBranchLevel.Request(5).serialize()),
         (bytes(server_get_user_status('ab', 2, 1)), M.GetUserStatus.Response('ab', 2, True).serialize()),
         (bytes(server_cannot_connect(77)), M.CannotConnect.Response(77).serialize()),
+        (bytes(server_get_peer_address('bob', [1, 2, 3, 4], 67770, 1, 1235)),
+         M.GetPeerAddress.Response('bob', '1.2.3.4', 67770, 1, 1235).serialize()),
         (bytes(server_connect_to_peer('ab', 'P', [1, 2, 3, 4], 1234, 99, 0, 1, 1235)),
          M.ConnectToPeer.Response('ab', 'P', '1.2.3.4', 1234, 99, False, 1, 1235).serialize()),
     ]
@@ -1081,7 +1120,44 @@ def _validate_reference():
             raise symex.HarnessError(f'reference first-frame decoder disagrees with the real parser on {bd!r}: ref={valid},{matches} '
                                      f'real={real_init},{real_match}')
         n_ok += 1
-    return f'reference frames == real serializers on 7 messages; reference first-frame verdict == real parser on {n_ok} concrete bodies'
+    return f'reference frames == real serializers on 8 messages; reference first-frame verdict == real parser on {n_ok} concrete bodies'
+
+
+def _validate_arguments():
+    """engine.c10env.check_address against the REAL asyncio.open_connection for an IP-literal host: same exception class for bad
+    arguments, raised without yielding to the loop; in-range ports fail (nothing listens) with an OSError only"""
+    cases = [('127.0.0.1', 67770), ('127.0.0.1', 65536), ('127.0.0.1', 2 ** 32 - 1), ('127.0.0.1', -1), ('127.0.0.1', 0),
+             ('127.0.0.1', 1), ('127.0.0.1', 65535), ('127.0.0\x00.1', 80)]
+    out = []
+
+    async def real(host, port):
+        ran = []
+        asyncio.get_running_loop().call_soon(ran.append, 1)
+        try:
+            _, w = await asyncio.wait_for(asyncio.open_connection(host, port), 5)
+            w.close()
+            return 'connected', bool(ran)
+        except OSError:
+            return 'OSError', None
+        except Exception as e:  # noqa
+            return type(e).__name__, bool(ran)
+    for host, port in cases:
+        try:
+            c10env.check_address(host, port)
+            fake = 'accepted'
+        except Exception as e:  # noqa
+            fake = type(e).__name__
+        got, yielded = asyncio.run(real(host, port))
+        if fake == 'accepted':
+            ok = got in ('OSError', 'connected')
+        else:
+            ok = got == fake and yielded is False
+        if not ok:
+            raise symex.HarnessError(f'check_address disagrees with asyncio.open_connection on {host!r}:{port!r}: fake={fake} real={got} '
+                                     f'yielded={yielded}')
+        out.append(f'{port!r}->{got}')
+    return 'check_address == real asyncio.open_connection on IP-literal hosts (bad arguments raise the same non-OSError class without ' \
+           'yielding; in-range ports only OSError): ' + ', '.join(out)
 
 
 def _validate_wire():
